@@ -943,6 +943,12 @@ def main():
     tie_broken = []
     if not okc:
         tie_broken.append(f"constant extraction: {consts}")
+    else:
+        # constants of the sketch that could not be re-extracted (the library keeps the last values)
+        # concern only the properties that speak about the sketch
+        for f in consts.get("untied", []):
+            if prop in ("C08", "C12", "C13", "C14"):
+                tie_broken.append(f"constant extraction: {', '.join(f['constants'])} no longer tied to the source: {f['why']}")
     logic_failures = regenerate_logic()
     groups = cfg.get("logic", [])
     for g, name, why in logic_failures:
